@@ -2,6 +2,7 @@ package main
 
 import (
 	"fmt"
+	"go/types"
 	"strings"
 
 	"golang.org/x/tools/go/ssa"
@@ -60,7 +61,9 @@ func (c *Ctx) cbSpec(expandSetState bool) *Spec {
 					return "setState(" + itoa(k) + ")"
 				}
 				return "setState(?)"
-			case strings.HasSuffix(n, "CircuitBreaker).afterRequest"):
+			case c.cbReporter(StaticFn(ci)) && (fr == nil || !c.cbReporter(fr.Fn)):
+				// the outermost call that reports a request's outcome to the breaker (afterRequest,
+				// recordResult, … — any unexported method taking just the success flag)
 				return "afterRequest(" + p.Desc(ci.Common().Args[1], fr) + ")"
 			case strings.HasPrefix(n, "dyn:func() error"):
 				return "call-fn"
@@ -84,13 +87,43 @@ func (c *Ctx) cbSpec(expandSetState bool) *Spec {
 			return strings.HasSuffix(fnPkg(callee).Pkg.Path(), "/circuitbreaker") && n != "Counts"
 		},
 		RetLabel: func(callee *ssa.Function) string {
-			if callee.Name() == "beforeRequest" {
-				return "ret:beforeRequest"
+			// any inlined breaker helper that answers with just an error: its verdict is part of the path
+			if rs := callee.Signature.Results(); rs.Len() == 1 && rs.At(0).Type().String() == "error" {
+				return "ret:err"
 			}
 			return ""
 		},
 		MayPanic: func(site ssa.CallInstruction) bool { return strings.HasPrefix(CalleeName(site), "dyn:func() error") },
 	}
+}
+
+// cbReporter: an unexported method of CircuitBreaker whose only parameter is the success flag.
+func (c *Ctx) cbReporter(f *ssa.Function) bool {
+	if f == nil || f.Signature.Recv() == nil || QualType(namedOf(f.Signature.Recv().Type())) != "circuitbreaker.CircuitBreaker" {
+		return false
+	}
+	ps := f.Signature.Params()
+	if ps.Len() != 1 || f.Object() == nil || f.Object().Exported() {
+		return false
+	}
+	b, ok := ps.At(0).Type().Underlying().(*types.Basic)
+	return ok && b.Kind() == types.Bool
+}
+
+// cbReportFn: the function in which a reported outcome is turned into counters and transitions —
+// afterRequest when it exists, otherwise whichever reporter the package has.
+func (c *Ctx) cbReportFn() *ssa.Function {
+	p := c.P
+	if f := p.Fn("internal/circuitbreaker", "CircuitBreaker", "afterRequest"); f != nil {
+		return f
+	}
+	var out *ssa.Function
+	for _, f := range p.Funcs {
+		if c.cbReporter(f) && (out == nil || f.Name() < out.Name()) {
+			out = f
+		}
+	}
+	return out
 }
 
 // stateOn returns the breaker state constant established by the last state test before idx
@@ -131,29 +164,32 @@ func checkC07(c *Ctx) {
 	// setState only with W held
 	li := p.Locks()
 	if ss := p.Fn("internal/circuitbreaker", "CircuitBreaker", "setState"); ss == nil {
-		c.Missing("called-with-lock", "circuitbreaker.(*CircuitBreaker).setState")
+		c.Pass("called-with-lock", "circuitbreaker.(*CircuitBreaker).setState", "-", "there is no setState helper: every store to CircuitBreaker.state is covered by guarded-by (write lock required)")
 	} else {
 		c.Check(li.Fns[ss].Entry.HoldsClass(cbT+"mutex") == 'W', "called-with-lock", "circuitbreaker.(*CircuitBreaker).setState", p.Pos(ss.Pos()),
 			"every call site holds CircuitBreaker.mutex in write mode", "setState is reachable without CircuitBreaker.mutex held in write mode")
 	}
 
-	after := p.Fn("internal/circuitbreaker", "CircuitBreaker", "afterRequest")
-	before := p.Fn("internal/circuitbreaker", "CircuitBreaker", "beforeRequest")
+	after := c.cbReportFn()
 	exec := p.Fn("internal/circuitbreaker", "CircuitBreaker", "Execute")
+	successParam := "param:success"
+	if after != nil && len(after.Params) == 2 {
+		successParam = "param:" + after.Params[1].Name()
+	}
 
 	// ---- afterRequest transitions ---------------------------------------------------------
-	c.traceRule("transition-relation", "circuitbreaker.(*CircuitBreaker).afterRequest", after, c.cbSpec(false),
+	c.traceRule("transition-relation", "circuitbreaker.(*CircuitBreaker).afterRequest", after, c.cbSpec(true),
 		"every path performs exactly the transition its (state, outcome, threshold) context prescribes",
 		func(t *Trace) string {
 			// outcome
-			succ, _, okS := c.findRel(t, "param:success", "", 0, -1)
+			succ, _, okS := c.findRel(t, successParam, "", 0, -1)
 			if !okS {
 				return "undecided: outcome parameter is not tested"
 			}
 			success := succ.Lo == 1
 			var sets []int
 			for i, it := range t.Items {
-				if strings.HasPrefix(it.Label, "setState(") {
+				if strings.HasPrefix(it.Label, "store state := ") {
 					sets = append(sets, i)
 				}
 			}
@@ -182,7 +218,7 @@ func checkC07(c *Ctx) {
 						return "close threshold is not successCount ≥ successThreshold: " + r.String()
 					}
 					if reached {
-						if len(sets) != 1 || t.Items[sets[0]].Label != "setState("+itoa(k.closed)+")" || sets[0] < ri {
+						if len(sets) != 1 || t.Items[sets[0]].Label != "store state := k:"+itoa(k.closed) || sets[0] < ri {
 							return "success threshold reached but breaker not closed"
 						}
 						if !has("store failureCount := k:0", sets[0]) {
@@ -218,7 +254,7 @@ func checkC07(c *Ctx) {
 				openAt = sets[0]
 			}
 			checkOpen := func() string {
-				if len(sets) != 1 || t.Items[openAt].Label != "setState("+itoa(k.open)+")" {
+				if len(sets) != 1 || t.Items[openAt].Label != "store state := k:"+itoa(k.open) {
 					return "expected exactly one transition to Open"
 				}
 				if !has("store nextAttempt := add(now,fld:"+cbT+"timeout)", openAt) {
@@ -257,28 +293,38 @@ func checkC07(c *Ctx) {
 		})
 
 	// ---- beforeRequest -------------------------------------------------------------------------
-	c.admissionRule(k, before)
+	c.admissionRule(k, exec)
 
 	// ---- Execute ---------------------------------------------------------------------------------
 	c.traceRule("blocked-means-not-contacted", "circuitbreaker.(*CircuitBreaker).Execute", exec, c.cbSpec(true),
 		"fn runs only after beforeRequest returned nil, a rejection returns the error without calling fn, every completed call reports to afterRequest exactly once, panics report failure and are re-raised",
 		func(t *Trace) string {
+			fi := t.Index("call-fn", 0)
+			// the admission test: some test of the breaker state precedes the call (or the refusal)
 			bi := -1
 			for i, it := range t.Items {
-				if strings.HasPrefix(it.Label, "ret:beforeRequest:") {
-					bi = i
+				if fi >= 0 && i >= fi {
 					break
+				}
+				if _, isIf := it.Instr.(*ssa.If); isIf {
+					if o, ok := c.condRel(it).Orient(cbT+"state", ""); ok && o.Y == "" {
+						bi = i
+						break
+					}
 				}
 			}
 			if bi < 0 {
 				return "beforeRequest is not consulted"
 			}
-			lbl := strings.TrimPrefix(t.Items[bi].Label, "ret:beforeRequest:")
-			if lbl == "?" {
-				return "undecided: beforeRequest returns an error value that is neither nil nor a package error"
+			nilRet := fi >= 0
+			for i, it := range t.Items {
+				if fi >= 0 && i < fi && strings.HasPrefix(it.Label, "ret:err:") && it.Label != "ret:err:nil" {
+					return "fn is called although the admission logic refused the request (" + strings.TrimPrefix(it.Label, "ret:err:") + ")"
+				}
 			}
-			nilRet := lbl == "nil"
-			fi := t.Index("call-fn", 0)
+			if !nilRet && t.Exit == ExitNormal && len(t.Ret) == 1 && t.Ret[0].K == ANil {
+				return "admitted request does not call fn (after the admission test)"
+			}
 			nAfter := 0
 			var afterLbl string
 			for _, it := range t.Items {
@@ -288,9 +334,6 @@ func checkC07(c *Ctx) {
 				}
 			}
 			if !nilRet {
-				if fi >= 0 {
-					return "fn is called although beforeRequest rejected the request"
-				}
 				if t.Exit != ExitNormal || len(t.Ret) != 1 || t.Ret[0].K != ANonNil {
 					return "rejection does not return the rejection error"
 				}
@@ -536,8 +579,8 @@ func checkC08(c *Ctx) {
 	lockOrder(c)
 
 	// (3),(4): the admission relation (closed never rejects, open+elapsed admits) — shared with C07
-	c.admissionRule(k, p.Fn("internal/circuitbreaker", "CircuitBreaker", "beforeRequest"))
 	exec := p.Fn("internal/circuitbreaker", "CircuitBreaker", "Execute")
+	c.admissionRule(k, exec)
 	c.traceRule("trial-always-reported", "circuitbreaker.(*CircuitBreaker).Execute", exec, c.cbSpec(true),
 		"every admitted request reports its outcome to afterRequest exactly once, so a spent half-open trial always leads to a transition; a refused request reports nothing",
 		func(t *Trace) string {
@@ -558,12 +601,12 @@ func checkC08(c *Ctx) {
 			}
 			return ""
 		})
-	after := p.Fn("internal/circuitbreaker", "CircuitBreaker", "afterRequest")
-	c.traceRule("open-sets-next-attempt", "circuitbreaker.(*CircuitBreaker).afterRequest", after, c.cbSpec(false),
+	after := c.cbReportFn()
+	c.traceRule("open-sets-next-attempt", "circuitbreaker.(*CircuitBreaker).afterRequest", after, c.cbSpec(true),
 		"each transition to Open stores nextAttempt = now + timeout",
 		func(t *Trace) string {
 			for i, it := range t.Items {
-				if it.Label == "setState("+itoa(k.open)+")" && t.Index("store nextAttempt := add(now,fld:"+cbT+"timeout)", i) < 0 {
+				if it.Label == "store state := k:"+itoa(k.open) && t.Index("store nextAttempt := add(now,fld:"+cbT+"timeout)", i) < 0 {
 					return "transition to Open without nextAttempt = now + timeout (breaker would never leave Open, or leave it at once)"
 				}
 			}
@@ -675,11 +718,19 @@ func (c *Ctx) cbScan(t *Trace, upto int) cbScanT {
 
 // admissionRule checks beforeRequest against the admission relation of the property, judged on the
 // state the path last established (the authoritative test under the write lock when there is one).
-func (c *Ctx) admissionRule(k cbConsts, before *ssa.Function) {
+func (c *Ctx) admissionRule(k cbConsts, exec *ssa.Function) {
 	sp := c.cbSpec(true)
-	c.traceRule("admission-relation", "circuitbreaker.(*CircuitBreaker).beforeRequest", before, sp,
+	c.traceRule("admission-relation", "circuitbreaker.(*CircuitBreaker).Execute/admission", exec, sp,
 		"closed admits; open rejects until nextAttempt<now, then moves to half-open under the write lock with counters zeroed; half-open admits iff requestCount < maxRequests; the error names the state",
-		func(t *Trace) string {
+		func(full *Trace) string {
+			// the admission part of the path: everything before fn is called (admitted), or the whole
+			// path of a refusal; what happens after fn returned is judged by the other rules
+			t := full
+			if fi := full.Index("call-fn", 0); fi >= 0 {
+				t = &Trace{Items: full.Items[:fi], Exit: ExitNormal, Ret: []AbsVal{{K: ANil}}}
+			} else if full.Exit != ExitNormal {
+				return ""
+			}
 			if len(t.Ret) != 1 || t.Ret[0].K == AUnknown || (t.Ret[0].K == ANonNil && t.Ret[0].G == nil) {
 				return "undecided: beforeRequest returns an error value that is neither nil nor a package error"
 			}
